@@ -2,10 +2,10 @@
    Model/Quadratic.v: Q_{C,L} = sum_{S in C} phase(L,S) S (x) (L.S) for components C of the commutator graph and
    commutants L; the twirl with exact rational coefficients.  Proved for every n: symmetries built from different
    components or different linear symmetries have disjoint Pauli supports and are therefore orthogonal in the trace
-   inner product.  Not proved: invariance under g(x)1 + 1(x)g (checked exactly on dense matrices per input),
-   completeness (basis theorem of arXiv:2502.16404; validated per input by a rank computation, n <= 2), and the
+   inner product; and every member of the model's full basis commutes with g(x)1 + 1(x)g for every member g
+   (pairing S <-> g.S inside a component, letterwise phase identities).  Not proved: completeness (basis theorem of arXiv:2502.16404; validated per input by a rank computation, n <= 2), and the
    projector laws of the twirl (checked densely per input). *)
-From PauLie Require Import Pauli Matrix Linear LinearT Quadratic QuadraticT.
+From PauLie Require Import Pauli Matrix Linear LinearT Graph Quadratic QuadraticT QuadInvT.
 
 Theorem C16_disjoint_supports : forall n C C' L L',
   (forall s, In s C -> length s = n) -> (forall s, In s C' -> length s = n) -> length L = n -> length L' = n ->
@@ -20,6 +20,18 @@ Theorem C16_orthogonal_partial : forall n C C' L L',
   mtrace (2 * n) (mmul (2 * n) (denote (lherm (quadratic C L))) (denote (quadratic C' L'))) = g0.
 Proof. exact quadratic_orthogonal. Qed.
 Print Assumptions C16_orthogonal_partial.
+
+(* each quadratic symmetry commutes with g (x) 1 + 1 (x) g (gen2 n g, a combination on 2n qubits) for every member g *)
+Theorem C16_invariant : forall n G q g, (forall h, In h G -> length h = n) -> In q (full_basis n G) -> In g G ->
+  meq (2 * n) (mmul (2 * n) (denote (gen2 n g)) (denote q)) (mmul (2 * n) (denote q) (denote (gen2 n g))).
+Proof. exact full_basis_invariant. Qed.
+Print Assumptions C16_invariant.
+(* the same for any duplicate-free set C closed under S |-> g.S (S anticommuting with g) and any L commuting with g *)
+Theorem C16_invariant_general : forall n g L C, length g = n -> length L = n -> (forall s, In s C -> length s = n) ->
+  NoDup C -> anti_l g L = false -> (forall s, In s C -> anti_l g s = true -> In (smul g s) C) ->
+  meq (2 * n) (mmul (2 * n) (denote (gen2 n g)) (denote (quadratic C L))) (mmul (2 * n) (denote (quadratic C L)) (denote (gen2 n g))).
+Proof. exact quadratic_invariant. Qed.
+Print Assumptions C16_invariant_general.
 
 Example C16_example :
   full_basis 1 [[PX]; [PZ]] = [[((1,0), [PI;PI])]; [((1,0), [PZ;PZ]); ((1,0), [PY;PY]); ((1,0), [PX;PX])]]%Z /\
